@@ -279,6 +279,7 @@ def job(args):
         ws8.interp.set_attr(bc8.attrs[face], 'c', Rat.atom(('cnew',)), None)
         rec8 = []
         ext8 = PyCallable(lambda a, k: (rec8.append(a), Box(flat_vector(ws8, 'sol')))[1])
+        ws8.interp.solver_hook = lambda name, a, k: (rec8.append(a), Box(flat_vector(ws8, 'sol')))[1]     # whichever solver is called
         try:
             ws8.call('pdesolver', 'solvePDE', v8, [Mt8], ext8)
             G = ghosts8[fi_]
